@@ -34,6 +34,8 @@ def regionEq (a b : List (Aff Q)) : Bool :=
 def judgeC09 : P Verdict := do
   let td ← pTree
   let skl ← pNatList
+  let pre ← pNat
+  if pre > 0 then tag "pre-skip"
   expect "|"
   -- the trees of this kind are built through the public API only; when the arena is not the image of a tree (a leaf
   -- flag on a node with a child, a dangling link) `find_terminal` / `evaluate` (which trust the flags) and the region
@@ -58,7 +60,7 @@ def judgeC09 : P Verdict := do
     if !regionEq r.polys path then
       return .propfail s!"[C09] polyhedra(): node {r.idx}: reported path conditions {r.polys.map showAff} differ from the path {path.map showAff}"
   -- correspondence with the machine
-  let mach := PGen.run t sk (t.size + 2) (PGen.new t) 0
+  let mach := PGen.run t sk (t.size + 2) (PGen.skipN pre (PGen.new t)) 0
   if mach.length != rows.length || !(rows.zip mach).all (fun (r, (it, ps)) =>
       r.depth == it.depth && r.idx == it.idx && r.nrem == it.nrem && regionEq r.polys ps) then
     return .diverge "polyhedra(): machine model and implementation streams differ"
